@@ -84,6 +84,8 @@ UNIVERSES = {
     "jobval": dict(keys=["a", "b"], vals=["job", "x", "y", 1, 2]),
     "dots": dict(keys=["a", "b"], vals=["", ".", "..", "x", 1, "a.b", "..."]),
     "sep": dict(keys=["a", "b", "k/1"], vals=[1, 2, "x", "x/y", "y/", "y"]),
+    # a separator-free nested mapping before / after a top-level value with a separator (key order varies)
+    "sepnest": dict(keys=["n", "a", "b"], vals=[1, 2, "x", "x/y", "y"], nested=True, inner=[0, 1, "x"], shuffle=True),
 }
 
 
@@ -98,13 +100,17 @@ def rand_sp(rng, uname):
     elif uname in ("homog", "collide", "jobval", "dots", "sep"):
         keys = keys[: rng.choice([1, 2, 2, 3])] if rng.random() < 0.15 else keys[:2]
     sp = {}
+    if u.get("shuffle"):
+        keys = list(keys)
+        rng.shuffle(keys)
+    inner = u.get("inner", u["vals"])
     for k in keys:
         r = rng.random()
         if u.get("nested") and k in ("n", "m"):
             if r < 0.55:
-                sp[k] = {"b": rng.choice(u["vals"]), "c": rng.choice([[1, 2], [1, "x"], [], [2], [1.5, None, True]])}
+                sp[k] = {"b": rng.choice(inner), "c": rng.choice([[1, 2], [1, "x"], [], [2], [1.5, None, True]])}
             elif r < 0.7:
-                sp[k] = {"b": {"z": rng.choice(u["vals"])}}
+                sp[k] = {"b": {"z": rng.choice(inner)}}
             elif r < 0.8:
                 sp[k] = {}
             elif r < 0.9:
@@ -123,7 +129,7 @@ def spec_pool(uname):
     if uname == "nested":
         return base + ["{a}/{{auto}}", "{job.id}", "{{auto:_}}", "v_{job.sp.a}/{{auto}}", "{job.sp.n.b}/{job.id}",
                        "{a}", "x/{{auto}}/id/{job.id}"]
-    if uname == "sep":
+    if uname in ("sep", "sepnest"):
         return base + ["{a}/{{auto}}", "{job.id}"]
     if uname == "dots":
         # values "", ".", ".." inside format-string paths: paths that differ as strings but name the same
